@@ -281,3 +281,25 @@ Proof.
     apply in_map_iff. exists (n, c). split; [reflexivity|]. apply filter_In. split; [exact H|].
     cbn. unfold names_of in E. now rewrite E.
 Qed.
+
+(* PrepareSnapshot + RestoreFromSnapshot on a replica: it ends with the content recorded for (t,i),
+   by its own local checkpoint when it has one, else by the peer's *)
+Theorem fetch_restore a b t i b' later b2 :
+  wf b -> pending_not (enc_name t i) b ->
+  vfetch a b t i = (b', ROk) ->
+  Forall (not_backup_of (enc_name t i)) later ->
+  vstep (run b' later) (ORestore t i) = (b2, ROk) ->
+  exists c, vs_val b2 = ck_val c /\
+    (ck_lookup (vs_cks b) (enc_name t i) = Some c \/
+     (ck_lookup (vs_cks b) (enc_name t i) = None /\ ck_lookup (vs_cks a) (enc_name t i) = Some c)).
+Proof.
+  intros Hw Hpn Hf Hl HR. unfold vfetch in Hf.
+  destruct (ck_lookup (vs_cks b) (enc_name t i)) as [c|] eqn:EB.
+  - inversion Hf; subst b'. exists c. split; [|now left].
+    cbn in HR. destruct (ck_lookup (vs_cks (run b later)) (enc_name t i)) as [c'|] eqn:EL; [|inversion HR].
+    inversion HR; subst b2. unfold vpurge. cbn.
+    apply run_preserves in EL; auto. congruence.
+  - destruct (ck_lookup (vs_cks a) (enc_name t i)) as [c|] eqn:EA; [|inversion Hf].
+    exists c. split; [|right; auto].
+    eapply copy_restore; eauto.
+Qed.
